@@ -18,7 +18,9 @@ EXPLANATION = ("For every LdapConn method with a same-named Ldap method, on ever
                "url or Url::parse(url)?) and return its result unmodified; LdapConn::from_url_with_settings builds a current-thread runtime with all "
                "drivers enabled, runs LdapConnAsync::from_url_with_settings(settings, url) on it, on success spawns conn.drive() inside that runtime "
                "and keeps that runtime and the returned handle, on failure returns the error unmodified and spawns nothing. "
-               "EntryStream::next/result/last_id delegate to SearchStream::next/finish/ldap_handle().last_id(). Decided completely for what the type "
+               "EntryStream::next/result/last_id delegate to SearchStream::next/finish/ldap_handle().last_id(); the two stream wrappers are evaluated from every value of the stream's state "
+               "(the stream's `&self` accessors evaluated), and a path that answers by itself is accepted exactly when the asynchronous method, entered with the same state under the same tests, returns the same value "
+               "on every path and does nothing. Decided completely for what the type "
                "checker cannot see: swapped same-typed arguments, a wrong same-typed method, a dropped or altered modifier.")
 TRUSTED = ['tokio current-thread runtime block_on returns the future\'s output']
 UNDECIDED = ['behaviour of the private current-thread runtime (tokio)']
